@@ -160,7 +160,12 @@ fn gen(g: &mut G, thorough: bool) -> Plan {
                 6 => {
                     // refusal body of a CONNECT reply that never ends (only meaningful via_connect; as an
                     // origin response it is a plain close-delimited body read with a fixed buffer)
-                    let head = b"HTTP/1.1 403 Forbidden\r\nX-Why: no\r\n\r\n".to_vec();
+                    // sometimes the refusal announces a (huge) length: the cap must hold regardless
+                    let head = if g.chance(1, 2) {
+                        b"HTTP/1.1 403 Forbidden\r\nX-Why: no\r\n\r\n".to_vec()
+                    } else {
+                        format!("HTTP/1.1 407 Proxy Authentication Required\r\nContent-Length: {}\r\n\r\n", blowup(g)).into_bytes()
+                    };
                     let start = head.len();
                     let mut w = head;
                     w.resize(total, b'x');
